@@ -306,11 +306,10 @@ _C08 = [
     M(["C08"], "mpr-no-zero-on-touch", MP, "_penetration_info", "if abs(depth) < EPSILON:\n    penetration_direction = np.zeros(3)", "", ["R-UNITDIR", "zero vector when touching"]),
     M(["C08"], "mpr-face-v0", MP, "_penetration_info", "point_to_triangle(np.zeros(3), v[1:])", "point_to_triangle(np.zeros(3), v[:3])", ["R-UNITDIR", "portal face"]),
     M(["C08"], "mpr-contact-weights", MP, "_contact_position", "v2 = barycentric_coordinates.dot(v2)", "v2 = barycentric_coordinates[::-1].dot(v2)", ["R-UNITDIR", "same weights"]),
-    M(["C08", "C02"], "mpr-par-rows", MP, "_expand_portal", "v[3], v1[3], v2[3] = (v4, v14, v24)", "v[3], v1[3], v2[2] = (v4, v14, v24)", ["R-PAR", "_expand_portal"]),
-    M(["C08", "C02"], "mpr-par-sources", MP, "_iterate_discover_portal", "v[1], v1[1], v2[1] = (v[3], v1[3], v2[3])", "v[1], v1[1], v2[1] = (v[3], v1[3], v2[2])", ["R-PAR", "_iterate_discover_portal"]),
+    M(["C08"], "mpr-par-rows", MP, "_expand_portal", "v[3], v1[3], v2[3] = (v4, v14, v24)", "v[3], v1[3], v2[2] = (v4, v14, v24)", ["R-PAR", "_expand_portal"]),
+    M(["C08"], "mpr-par-sources", MP, "_iterate_discover_portal", "v[1], v1[1], v2[1] = (v[3], v1[3], v2[3])", "v[1], v1[1], v2[1] = (v[3], v1[3], v2[2])", ["R-PAR", "_iterate_discover_portal"]),
     M(["C08", "C02"], "mpr-seed-mixed", MP, "_find_origin_ray", "make_support_point(collider1.center(), collider2.center())", "make_support_point(collider1.center(), collider2.first_vertex())", ["R-MINK", "seed"]),
     M(["C08"], "mpr-forward-swapped", MP, "_find_penetration_info", "support_function(collider1, collider2, search_direction)", "support_function(collider2, collider1, search_direction)", ["R-MINK", "forwards"]),
-    M(["C02"], "simplex-add-point-rows", MK, "Simplex.add_point", "self.v2[self.n_points] = v2", "self.v2[self.n_points] = v1", ["R-PAR", "add_point"]),
 ]
 
 GE = "distance3d/geometry.py"
@@ -359,9 +358,9 @@ _C04 = [
       "return (-extent, extent)", ["R-FRAMERET", "capsule_aabb"]) ,
     M(["C04", "C12"], "aabb-mesh-no-rotation", CO, "MeshGraph.aabb", "np.dot(self.vertices, self.mesh2origin[:3, :3].T)", "self.vertices", ["R-FRAME", "MeshGraph.aabb"]),
     M(["C04", "C12"], "aabb-mesh-wrong-T", CO, "MeshGraph.aabb", "np.dot(self.vertices, self.mesh2origin[:3, :3].T)", "np.dot(self.vertices, self.mesh2origin[:3, :3])", ["R-FRAME", "MeshGraph.aabb"]),
-    M(["C04", "C12"], "degree-cylinder-extent", CT, "cylinder_aabb", "0.5 * length * np.abs(axis) + radius * np.sqrt(1.0 - axis * axis)", "0.5 * length * np.abs(axis) + radius * radius * np.sqrt(1.0 - axis * axis)", ["R-DEGREE", "cylinder_aabb"]),
+    M(["C04", "C12"], "degree-cylinder-extent", CT, "cylinder_aabb", "radius * np.sqrt(np.maximum(0.0, 1.0 - axis * axis))", "radius * radius * np.sqrt(np.maximum(0.0, 1.0 - axis * axis))", ["R-DEGREE", "cylinder_aabb"]),
     M(["C04", "C12"], "degree-ellipse-extent", CT, "ellipse_aabb", "np.sqrt((radii[0] * axes[0]) ** 2 + (radii[1] * axes[1]) ** 2)", "(radii[0] * axes[0]) ** 2 + (radii[1] * axes[1]) ** 2", ["R-DEGREE", "ellipse_aabb"]),
-    M(["C04", "C12"], "degree-cone-e", CT, "cone_aabb", "np.sqrt(1.0 - a * a / (height * height))", "np.sqrt(1.0 - a * a / height)", ["R-DEGREE", "cone_aabb"]),
+    M(["C04", "C12"], "degree-cone-e", CT, "cone_aabb", "1.0 - a * a / (height * height)", "1.0 - a * a / height", ["R-DEGREE", "cone_aabb"]),
 ]
 
 _C12 = [
@@ -470,6 +469,30 @@ ME = "distance3d/mesh.py"
 RB = "distance3d/hydroelastic_contact/_rigid_body.py"
 MP = "distance3d/mpr.py"
 _SEEDLIKE = [
+    M(["C04"], "aabb-cylinder-radicand-unclamped", "distance3d/containment.py", "cylinder_aabb", "np.maximum(0.0, 1.0 - axis * axis)", "1.0 - axis * axis", ["R-SQRTDOMAIN", "cylinder_aabb"]),
+    M(["C04"], "aabb-cone-radicand-unclamped", "distance3d/containment.py", "cone_aabb", "np.maximum(0.0, 1.0 - a * a / (height * height))", "1.0 - a * a / (height * height)", ["R-SQRTDOMAIN", "cone_aabb"]),
+    M(["C20", "C10"], "line-line-sqrt-no-abs", "distance3d/distance/_line.py", "_line_to_line", "math.sqrt(abs(dist_squared))", "math.sqrt(dist_squared)", ["R-SQRTDOMAIN", "_line_to_line"]),
+    M(["C13", "C12"], "mesh-test-flip-normals-by-origin", "distance3d/containment_test.py", "points_in_convex_mesh", "face_centers = np.mean(faces, axis=1)",
+      "face_centers = np.mean(faces, axis=1)\nface_normals[np.sum(face_normals * face_centers, axis=1) < 0.0] *= -1.0", ["R-ORIGINFREE", "points_in_convex_mesh"]),
+    M(["C13", "C12"], "mesh-test-origin-halfspace", "distance3d/containment_test.py", "points_in_convex_mesh", "point[np.newaxis] - face_centers", "point[np.newaxis]", ["R-", "points_in_convex_mesh"]),
+    M(["C03", "C13", "C12"], "convex-mesh-not-centred", "distance3d/mesh.py", "make_convex_mesh", "vertices = vertices - np.mean(vertices, axis=0)", "", ["R-ORIGINFREE", "make_convex_mesh"]),
+    M(["C01", "C02", "C18"], "jolt-tetra-stale-min-acd", JO, "closest_point_tetrahedron", "best_dist_sq = dist_sq", "", ["R-RUNMIN", "closest_point_tetrahedron"], nth=0),
+    M(["C01", "C02", "C18"], "jolt-tetra-stale-min-adb", JO, "closest_point_tetrahedron", "best_dist_sq = dist_sq", "", ["R-RUNMIN", "closest_point_tetrahedron"], nth=1),
+    M(["C01", "C02", "C18"], "jolt-triangle-stale-min", JO, "closest_point_triangle", "best_dist_sq = dist_sq", "", ["R-RUNMIN", "closest_point_triangle"], nth=0),
+    M(["C10", "C11"], "rect-rect-stale-min", "distance3d/distance/_rectangle.py", "rectangle_to_rectangle", "best_dist = dist", "", ["R-RUNMIN", "rectangle_to_rectangle"], nth=1),
+    M(["C08"], "mpr-expand-preimage-twice", "distance3d/mpr.py", "_refine_portal", "_expand_portal(portal.v, portal.v1, portal.v2, next_support_point, next_support_point1, next_support_point2)",
+      "_expand_portal(portal.v, portal.v1, portal.v2, next_support_point, next_support_point1, next_support_point1)", ["R-PAR", "call _expand_portal"]),
+    M(["C08"], "mpr-expand-portal-rows-mixed", "distance3d/mpr.py", "_find_penetration_info", "_expand_portal(portal.v, portal.v1, portal.v2, next_support_point, next_support_point1, next_support_point2)",
+      "_expand_portal(portal.v, portal.v2, portal.v1, next_support_point, next_support_point1, next_support_point2)", ["R-PAR", "call _expand_portal"]),
+    M(["C06"], "bvh-update-only-if-moved", "distance3d/broad_phase.py", "BoundingVolumeHierarchy.update_collider_poses", "collider.update_pose(A2B)",
+      "if not np.array_equal(A2B, collider.collider2origin()):\n    collider.update_pose(A2B)", ["R-UPDATEORDER", "unconditionally"]),
+    M(["C06"], "bvh-skip-some-colliders", "distance3d/broad_phase.py", "BoundingVolumeHierarchy.update_collider_poses", "collider = self.colliders_[frame]",
+      "collider = self.colliders_[frame]\nif collider.artist_ is None:\n    continue", ["R-UPDATEORDER", "unconditionally"]),
+    M(["C10"], "circle-argmax-signed", "distance3d/distance/_circle.py", "_line_segment_to_circle",
+      "comparison_dimensions = np.where(segment_direction != 0.0)[0]\nassert len(comparison_dimensions) > 0\ncomparison_dimension = comparison_dimensions[0]",
+      "comparison_dimension = np.argmax(segment_direction)", ["R-SELCOMP"]),
+    M(["C10"], "circle-nonzero-test-inverted", "distance3d/distance/_circle.py", "_line_segment_to_circle", "segment_direction != 0.0", "segment_direction == 0.0", ["R-SELCOMP"]),
+    M(["C10"], "circle-fixed-component", "distance3d/distance/_circle.py", "_line_segment_to_circle", "comparison_dimension = comparison_dimensions[0]", "comparison_dimension = len(comparison_dimensions) - 1", ["R-SELCOMP"]),
     M(["C10", "C11"], "boxface-leaf-store-sign", LBX, "_box_face", "point_in_box[i2] = -box_half_size[i2]", "point_in_box[i2] = box_half_size[i2]", ["R-BOXFACE"], nth=0),
     M(["C10", "C11"], "boxface-delta-wrong-offset", LBX, "_box_face", "direction_in_box[i1] * point_m_edge[i1]", "direction_in_box[i1] * point_p_edge[i1]", ["R-BOXFACE"], nth=0),
     M(["C10", "C11"], "boxface-copy-stale-index", LBX, "_box_face", "tmp <= 2.0 * l_sqr * box_half_size[i1]", "tmp <= 2.0 * l_sqr * box_half_size[i2]", ["R-BOXFACE", "re-uses the i1-edge"], nth=1),
@@ -482,7 +505,7 @@ _SEEDLIKE = [
     M(["C04"], "axis-capsule-aabb", "distance3d/containment.py", "capsule_aabb", "0.5 * height * np.abs(capsule2origin[:3, 2]) + radius", "0.5 * height * np.abs(capsule2origin[:3, 0]) + radius", ["R-AXIS", "capsule_aabb"]),
     M(["C04", "C12"], "aabb-cone-pose-row", "distance3d/containment.py", "cone_aabb", "cone2origin[:3, 3] + height * cone2origin[:3, 2]", "cone2origin[:3, 3] + height * cone2origin[2, :3]", ["R-", "cone_aabb"]),
     M(["C04"], "aabbargs-capsule-swapped", "distance3d/colliders.py", "Capsule.aabb", "capsule_aabb(self.capsule2origin, self.radius, self.height)", "capsule_aabb(self.capsule2origin, self.height, self.radius)", ["R-AABBARGS", "Capsule.aabb"]),
-    M(["C04", "C12"], "degree-disk-extent", "distance3d/containment.py", "disk_aabb", "radius * np.sqrt(1.0 - normal * normal)", "radius * radius * np.sqrt(1.0 - normal * normal)", ["R-DEGREE", "disk_aabb"]),
+    M(["C04", "C12"], "degree-disk-extent", "distance3d/containment.py", "disk_aabb", "radius * np.sqrt(np.maximum(0.0, 1.0 - normal * normal))", "radius * radius * np.sqrt(np.maximum(0.0, 1.0 - normal * normal))", ["R-DEGREE", "disk_aabb"]),
     M(["C13"], "axis-cylinder-test", "distance3d/containment_test.py", "points_in_cylinder", "cylinder2origin[:3, 2]", "cylinder2origin[:3, 1]", ["R-AXIS", "points_in_cylinder"], nth=0),
     M(["C03", "C13"], "axis-capsule-support", "distance3d/geometry.py", "support_function_capsule", "local_dir[2] > 0.0", "local_dir[1] > 0.0", ["R-AXIS", "support_function_capsule"]),
     M(["C06", "C14"], "capsule-update-keeps-old-pose", "distance3d/colliders.py", "Capsule.update_pose", "self.capsule2origin = pose", "self.capsule2origin = self.capsule2origin", ["R-COHERENCE", "Capsule"]),
